@@ -35,11 +35,11 @@ HDRS = ['phdr 0 0', 'phdr 0 1', 'phdr 0 2']
 def opening(l, hs=0): return [f'pnew 0 {l}'] + HDRS + (['phr 0 1'] if hs else []) + ['pinit 0']
 
 def model_check(tier):
-    cfgs = ['PktDec_MC_8_16_0.cfg', 'PktDec_MC_8_32_1.cfg', 'PktDec_MC_8_8_0.cfg'] if tier == 'quick' else sorted(os.path.basename(c) for c in glob.glob(os.path.join(vlib.SPEC, 'PktDec_MC_*.cfg')))
+    cfgs = ['PktDec_MC_8_16_0.cfg', 'PktDec_MC_8_32_1.cfg', 'PktDec_MC_tog_8_16.cfg'] if tier == 'quick' else sorted(os.path.basename(c) for c in glob.glob(os.path.join(vlib.SPEC, 'PktDec_MC_*.cfg')))
     def run(c): return c, vlib.run_tlc('PktDec_MC.tla', c, workers=5, timeout=1500)
     with ThreadPoolExecutor(max_workers=3) as ex: rs = list(ex.map(run, cfgs))
     wcfg = os.path.join(vlib.SPEC, f'.pk_w_{os.getpid()}.cfg')
-    open(wcfg, 'w').write('SPECIFICATION Spec\nCONSTANTS BS0 = 8\n BS1 = 16\n HS = 0\n MaxLen = 5\n Gen = FALSE\nINVARIANT NeverEndTrim\nCHECK_DEADLOCK FALSE\n')
+    open(wcfg, 'w').write('SPECIFICATION Spec\nCONSTANTS BS0 = 8\n BS1 = 16\n HS = 0\n MaxLen = 5\n Gen = FALSE\n Toggles = FALSE\nINVARIANT NeverEndTrim\nCHECK_DEADLOCK FALSE\n')
     w = vlib.run_tlc('PktDec_MC.tla', os.path.basename(wcfg), workers=1, timeout=300); os.remove(wcfg)
     stats = dict(states=0, transitions=0, runs={}); problems = []
     for c, r in rs:
@@ -53,9 +53,9 @@ def model_check(tier):
 def gen_histories(seed, n, depth):
     out = []
     def one(i):
-        bs1, hs = [(16, 0), (32, 0), (16, 1), (8, 0)][i % 4]
+        bs1, hs, tog = [(16, 0, False), (32, 0, True), (16, 1, True), (8, 0, False)][i % 4]
         cfg = os.path.join(vlib.SPEC, f'.pk_gen_{os.getpid()}_{i}.cfg')
-        open(cfg, 'w').write(f'SPECIFICATION Spec\nCONSTANTS BS0 = 8\n BS1 = {bs1}\n HS = {hs}\n MaxLen = {depth}\n Gen = TRUE\nINVARIANT Export\nINVARIANT BufOK\nCHECK_DEADLOCK FALSE\n')
+        open(cfg, 'w').write(f'SPECIFICATION Spec\nCONSTANTS BS0 = 8\n BS1 = {bs1}\n HS = {hs}\n MaxLen = {depth}\n Gen = TRUE\n Toggles = {("TRUE" if tog else "FALSE")}\nINVARIANT Export\nINVARIANT StoreOK\nCHECK_DEADLOCK FALSE\n')
         r = vlib.run_tlc('PktDec_MC.tla', os.path.basename(cfg), workers=1, simulate=max(3, n // 4), depth=depth + 2, seed=seed * 37 + i, timeout=200); os.remove(cfg)
         return [(hs, json.loads(m.replace('\\"', '"'))) for m in re.findall(r'"HIST (\[.*\])"', r['out'])]
     with ThreadPoolExecutor(max_workers=4) as ex:
@@ -80,6 +80,7 @@ def scn_from_hist(rng, i, hs, h, l, na):
             ls.append('pout 0'); k += 1
         elif op == 'read': ls.append(f'pread 0 {st[1]}')
         elif op == 'rest': ls.append('prest 0')
+        elif op == 'hr': ls.append(f'phr 0 {st[1]}')
     ls += ['pout 0', 'pread 0 -1', 'pclr 0 bdci']
     return Scn(f'tla-{i}-L{l}', ls, 'tla-adversarial', budget=30)
 
